@@ -128,7 +128,7 @@ func init() {
 			"number becomes an index only through normalizeIndex whose float→int conversion is NaN/Inf/fraction safe (R-F2I).",
 		NotDecided:  "The bounds predicate itself (-n ≤ i < n, a ≤ b ≤ n) and which element is returned.",
 		Assumptions: []string{},
-		Rules:       []*Rule{runesRule("pkg/evaluator", "stringVal", 4), ruleEvalMisc},
+		Rules:       []*Rule{runesRule("pkg/evaluator", "stringVal", 4), f2iRule("pkg/evaluator", 4), ruleEvalMisc},
 	})
 }
 
@@ -199,7 +199,7 @@ func init() {
 			"node type (R-FIELDCOV/format); every array/map literal node is registered in the layout table on every path that returns it (R-LAYOUTKEY).",
 		NotDecided:  "Token-sequence equality, re-parse equality, comment placement inside multi-line literals, expression re-binding — these need the output text.",
 		Assumptions: []string{},
-		Rules:       []*Rule{ruleEOLState, exhaustRule("format", 25), fieldCovRule("format"), ruleLayoutKey, ruleNoInPlace},
+		Rules:       []*Rule{ruleEOLState, exhaustRule("format", 25), fieldCovRule("format"), ruleLayoutKey, ruleNoInPlace, ruleIndentPair},
 	})
 }
 
